@@ -30,6 +30,9 @@ def _shard(rng):
 SEQ = (0, 1, 8, 10, 2003, 100000, 11090813, 11092003, 11092004, 11092005, 11092110, 11092111, 11092479, 11093312, P3 - 1)
 
 
+SEQ4 = (0, 2003, 11092003, 11092004, 11092479, P3 - 1)
+
+
 def check_seq(seq):
     for i, c in enumerate(seq):
         w = replay({"challenge": c})
@@ -38,16 +41,23 @@ def check_seq(seq):
     return None
 
 
+def _all_sequences():
+    import itertools
+
+    yield from itertools.product(SEQ, repeat=3)
+    yield from itertools.product(SEQ4, repeat=4)
+
+
 def run(tier, seed):
     import itertools
 
     loader.install_shims()
     seq_bad, n_seq = [], 0
-    for seq in itertools.product(SEQ, repeat=3):
+    for seq in _all_sequences():
         n_seq += 1
         w = check_seq(seq)
         if w and len(seq_bad) < 3:
-            seq_bad.append((list(seq), w))
+            seq_bad.append((list(seq), w, n_seq))
     res = par.pmap(_shard, par.ranges(0, P3, par.WORKERS * 4))
     n = sum(r[0] for r in res)
     nbad = sum(r[1] for r in res)
@@ -56,8 +66,8 @@ def run(tier, seed):
     violations = [
         {"key": f"challenge:{c}", "what": replay({"challenge": c}), "case": {"challenge": c}} for c in firsts
     ]
-    for seq, w in seq_bad:
-        violations.append({"key": "hash-sequence", "what": w, "case": {"seq": seq}})
+    for seq, w, upto in seq_bad:
+        violations.append({"key": "hash-sequence", "what": w, "case": {"seq": seq}, "alt_cases": [{"seq": seq, "upto": upto}]})
     coverage = {
         "call_sequences": n_seq,
         "evaluations": n + n_seq,
@@ -66,7 +76,7 @@ def run(tier, seed):
         "domain": [0, P3],
         "exhaustive": n == P3,
         "rule": "every challenge 0 <= c < 253^3 (each integer is a distinct case); hash compared with the truncating-"
-        "remainder reference; for c <= 11,092,110 additionally 0 <= hash < 253^4; call_sequences: every ordered triple over 15 boundary challenges (hidden-state detection)",
+        "remainder reference; for c <= 11,092,110 additionally 0 <= hash < 253^4; call_sequences: every ordered triple over 15 boundary challenges and every ordered 4-sequence over 6 (hidden-state detection)",
         "samples": [{"challenge": c, "hash": h(c)} for c in (0, 1, 12345, 11092003, 11092004, 11092110, 11092479, P3 - 1)],
     }
     return {"coverage": coverage, "violations": violations}
@@ -75,6 +85,15 @@ def run(tier, seed):
 def replay(case):
     loader.install_shims()
     h = loader.lib("eolib.encrypt.server_verification_utils").server_verification_hash
+    if case.get("upto"):
+        # context-dependent: replay every call sequence of the run, in order, up to the reported one
+        for i, seq in enumerate(_all_sequences()):
+            w = check_seq(seq)
+            if w:
+                return w + " (found while replaying the call sequences in order)"
+            if i + 1 >= int(case["upto"]):
+                return None
+        return None
     if "seq" in case:
         return check_seq([int(x) for x in case["seq"]])
     c = int(case["challenge"])
